@@ -6,9 +6,10 @@
 import GHEVerif.Lemmas.Search
 import GHEVerif.Lemmas.SearchNested
 import GHEVerif.Lemmas.SearchRowWise
+import GHEVerif.Lemmas.Pipeline
 
 namespace GHEVerif.C02
-open GHEVerif GHEVerif.Search
+open GHEVerif GHEVerif.Search GHEVerif.Report GHEVerif.Pipeline
 
 /-- Every selection of the search lies at or below the upper index fixed by the cap filter. -/
 theorem selected_le_upper (counts : List Nat) (E : Nat → Rat → Rat) (cfg : Cfg)
@@ -278,6 +279,58 @@ theorem height_in_window (x : Rat) (f : Rat → Rat) (lo hi brent : Rat) (hle : 
           · rw [if_pos c3] at h; injection h with h; injection h with _ h; subst h
             exact ⟨hle, le_refl _⟩
           · rw [if_neg c3] at h; injection h with h; injection h with h _; exact absurd h.symm hk
+
+/-- `solve_root`'s last branch hands back the starting value. -/
+theorem solveRoot_unchanged (x : Rat) (f : Rat → Rat) (lo hi brent H : Rat)
+    (h : solveRoot x f lo hi brent = .ok (.unchanged, H)) : H = x := by
+  unfold solveRoot at h
+  cases h1 : sgn (f lo) with
+  | error e => simp [h1] at h
+  | ok sm =>
+    cases h2 : sgn (f hi) with
+    | error e => simp [h1, h2] at h
+    | ok sp =>
+      simp only [h1, h2] at h
+      by_cases c1 : sp ≠ sm
+      · rw [if_pos c1] at h; injection h with h; injection h with h _; cases h
+      · rw [if_neg c1] at h
+        by_cases c2 : sp = -1 ∧ sm = -1
+        · rw [if_pos c2] at h; injection h with h; injection h with h _; cases h
+        · rw [if_neg c2] at h
+          by_cases c3 : sp = 1 ∧ sm = 1
+          · rw [if_pos c3] at h; injection h with h; injection h with h _; cases h
+          · rw [if_neg c3] at h; injection h with h; injection h with _ h; exact h.symm
+
+/-- The height window at the level of `GHEManager.find_design`, for EVERY design method and every
+    outcome of the search (ordinary selection or `continue_if_design_unmet` fallback, feasible or not):
+    whenever a design is returned, its height lies in `[min_height, max_height]` and the stored
+    temperatures were computed at it — provided only that Brent's answer stays inside its bracket. -/
+theorem find_design_height_in_window {α β : Type} (search : SearchRes α β) (E : α → Rat → Rat) (minH maxH : Rat)
+    (f : α → Rat → Rat) (its : α → List Rat) (brent : α → Rat) (d : DesignG α β)
+    (hres : findDesignG search E minH maxH f its brent = .design d)
+    (hwin : minH ≤ maxH) (hb : ∀ k, minH ≤ brent k ∧ brent k ≤ maxH) :
+    minH ≤ d.st.H ∧ d.st.H ≤ maxH ∧ d.st.simAt = some d.st.H := by
+  rw [findDesignG_eq_spec] at hres
+  unfold findDesignSpec at hres
+  cases search with
+  | valueError => simp at hres
+  | pyError e => simp at hres
+  | selected k h p =>
+    simp only at hres
+    cases hs : size (f k) minH maxH (its k) (brent k) { H := h, simAt := none, returned := 0 } with
+    | error e => simp [hs] at hres
+    | ok st =>
+      simp only [hs] at hres
+      injection hres with hres
+      subst hres
+      obtain ⟨h1, kind, hk⟩ := size_simAt (f k) minH maxH (its k) (brent k) _ _ hs
+      simp only
+      by_cases hu : kind = .unchanged
+      · subst hu
+        have hx := solveRoot_unchanged _ _ _ _ _ _ hk
+        refine ⟨?_, ?_, h1⟩ <;> rw [hx] <;> linarith
+      · obtain ⟨h2, h3⟩ := height_in_window _ (f k) minH maxH (brent k) hwin (hb k) kind st.H hk hu
+        exact ⟨h2, h3, h1⟩
 
 /-- Non-vacuity of the unmet policy: three candidates that all fail, flag off → ValueError;
     flag on → the largest candidate below the cap (index 1 for cap 5) at max height. -/
